@@ -294,6 +294,17 @@ func genEvidence(r *vf.Rng, c *Case) Ev {
 	}
 	k := signerBls
 	hv := honestVotes(r, k, e.Round, e.RIndex)
+	if e.Round == c.Parent {
+		// prefer the votes a real honest run of this validator sent
+		for key, signs := range c.realHV {
+			var rk int
+			var ri uint32
+			fmt.Sscanf(key, "%d/%d", &rk, &ri)
+			if rk == k && len(signs) > 0 {
+				hv, e.RIndex = signs, ri
+			}
+		}
+	}
 	pick2 := func(f func(a, b Sign) bool) ([]Sign, bool) {
 		for i := range hv {
 			for j := range hv {
@@ -384,8 +395,78 @@ func genEvidence(r *vf.Rng, c *Case) Ev {
 	return e
 }
 
-func genCase(r *vf.Rng) Case {
+// genVoterRun runs a real honest voter on the world of c (when its look-back
+// sets resolve) and returns the run as a case of its own.
+func genVoterRun(r *vf.Rng, c *Case) *Case {
+	cert := r.Chance(40)
+	if !lookbackResolves(c, c.Parent, cert) {
+		return nil
+	}
+	set := expectedSetOf(c, &Ev{Round: c.Parent, VType: 2})
+	var ks []int
+	for _, v := range set {
+		if !v.BadMain && v.Bls == v.Key {
+			ks = append(ks, v.Key)
+		}
+	}
+	if len(ks) == 0 {
+		return nil
+	}
+	vc := *c
+	vc.Mode, vc.Evs, vc.Obs = "voter", nil, Obs{}
+	vc.VRun = &VoterRun{Key: ks[r.Intn(len(ks))], Index: uint32(1 + r.Intn(3)), A: 1 + r.Intn(6), Quorum: r.Intn(3), Cert: cert}
+	vc.VRun.B = vc.VRun.A
+	if r.Chance(55) {
+		vc.VRun.B = 1 + r.Intn(6)
+	}
+	observe(&vc)
+	vc.observed = true
+	return &vc
+}
+
+func genDetectRun(r *vf.Rng, c *Case) *Case {
+	if !lookbackResolves(c, c.Parent, true) {
+		return nil
+	}
+	set := expectedSetOf(c, &Ev{Round: c.Parent, VType: 2})
+	var ks []int
+	for _, v := range set {
+		if !v.BadMain && v.Bls == v.Key {
+			ks = append(ks, v.Key)
+		}
+	}
+	if len(ks) < 2 {
+		return nil
+	}
+	dc := *c
+	dc.Mode, dc.Evs, dc.Obs = "detect", nil, Obs{}
+	o := r.Intn(len(ks))
+	dr := &DetectRun{Observer: ks[o], Signer: ks[(o+1+r.Intn(len(ks)-1))%len(ks)], Index: uint32(1 + r.Intn(3))}
+	n := 2 + r.Intn(6)
+	for i := 0; i < n; i++ {
+		dr.Msgs = append(dr.Msgs, VoteMsg{Kind: int(r.Pick([]uint64{2, 2, 2, 3, 3, 4, 4, 5})), Hash: r.Intn(4)})
+	}
+	dc.DRun = dr
+	return &dc
+}
+
+func genCase(r *vf.Rng) (Case, []Case) {
 	c := genWorld(r)
+	var extra []Case
+	if r.Chance(45) {
+		if vc := genVoterRun(r, &c); vc != nil {
+			extra = append(extra, *vc)
+			if c.realHV == nil {
+				c.realHV = map[string][]Sign{}
+			}
+			c.realHV[fmt.Sprintf("%d/%d", vc.VRun.Key, vc.VRun.Index)] = signsOfRun(vc)
+		}
+	}
+	if r.Chance(30) {
+		if dc := genDetectRun(r, &c); dc != nil {
+			extra = append(extra, *dc)
+		}
+	}
 	switch {
 	case r.Chance(12) && len(c.Vals) > 0:
 		c.Mode = "penal"
@@ -433,7 +514,7 @@ func genCase(r *vf.Rng) Case {
 			c.Evs = []Ev{}
 		}
 	}
-	return c
+	return c, extra
 }
 
 // ---- classification ----------------------------------------------------------------
@@ -462,6 +543,33 @@ func nontrivial(c *Case) bool {
 func classify(c *Case, res *vf.Result) {
 	res.Count("mode_" + c.Mode)
 	o := &c.Obs
+	switch c.Mode {
+	case "voter":
+		kinds := map[int]int{}
+		for _, e := range o.Emitted {
+			kinds[e.Kind]++
+			res.Count(fmt.Sprintf("voter_sent_kind_%d", e.Kind))
+		}
+		if kinds[4] == 2 {
+			res.Count("voter_sent_two_next_index_votes")
+		}
+		var h2, h3 = -2, -2
+		for _, e := range o.Emitted {
+			if e.Kind == 2 {
+				h2 = e.Hash
+			}
+			if e.Kind == 3 {
+				h3 = e.Hash
+			}
+		}
+		if h2 != -2 && h3 != -2 && h2 != h3 {
+			res.Count("voter_prevote_and_precommit_differ")
+		}
+		return
+	case "detect":
+		res.Count(fmt.Sprintf("detector_posted_%d", len(o.Detected)))
+		return
+	}
 	if o.Panic != "" {
 		res.Count("panic")
 		return
@@ -582,6 +690,15 @@ type Hit struct {
 	Case   Case   `json:"case"`
 }
 
+func sortedKeys(m map[int]*ValObs) []int {
+	var ks []int
+	for k := range m {
+		ks = append(ks, k)
+	}
+	sort.Ints(ks)
+	return ks
+}
+
 func valBefore(c *Case, k int) *CurVal {
 	for i := range c.Vals {
 		if c.Vals[i].Key == k {
@@ -620,6 +737,21 @@ func consistent(v *CurVal) bool {
 		tsum.Add(tsum, bigOf(d.Token))
 	}
 	return sum.Cmp(bigOf(v.Stake)) == 0 && sum.Sign() > 0 && tsum.Cmp(bigOf(v.Token)) == 0
+}
+
+// oracleAny dispatches on the case mode.
+func oracleAny(c *Case, fx Fixes) []Hit {
+	switch c.Mode {
+	case "voter":
+		return oracleVoter(c)
+	case "detect":
+		return oracleDetect(c)
+	}
+	hits := oracle(c, fx)
+	if d := checkBLS(c); d != "" {
+		hits = append(hits, Hit{What: "bls-rule-disagreement", Detail: d, Case: *c})
+	}
+	return hits
 }
 
 // oracle states the property over what the implementation did.
@@ -682,7 +814,8 @@ func oracle(c *Case, fx Fixes) []Hit {
 	}
 	totalTaken := new(big.Int)
 	zeroPenalised := false
-	for k, a := range after {
+	for _, k := range sortedKeys(after) {
+		a := after[k]
 		b := valBefore(c, k)
 		penalised := !sameVal(b, a) || logsFor[k] > 0 || confFor[k] > 0
 		// amount that may be taken
@@ -776,7 +909,13 @@ func oracle(c *Case, fx Fixes) []Hit {
 				curr.Sub(curr, obligation)
 			}
 			per, rem := new(big.Int).QuoRem(curr, bigOf(b.Stake), new(big.Int))
-			for src, dec := range bySource {
+			var srcs []int
+			for src := range bySource {
+				srcs = append(srcs, src)
+			}
+			sort.Ints(srcs)
+			for _, src := range srcs {
+				dec := bySource[src]
 				share := new(big.Int)
 				if src == 0 {
 					share.Mul(per, bigOf(b.SelfStake))
@@ -837,7 +976,13 @@ func oracle(c *Case, fx Fixes) []Hit {
 	}
 	// ---- real equivocation must be punished (first evidence per validator decides)
 	if c.Mode != "penal" {
-		for k, cs := range cands {
+		var ck []int
+		for k := range cands {
+			ck = append(ck, k)
+		}
+		sort.Ints(ck)
+		for _, k := range ck {
+			cs := cands[k]
 			b := valBefore(c, k)
 			if b == nil {
 				continue
